@@ -328,6 +328,26 @@ func runC11(r *Run) {
 				k, isC := constInt(asConst(prec))
 				r.check(isC && (k == -1 || k >= 17), fmt.Sprintf("%s:FormatFloat#%d:round-trip-precision", short(f.String()), n), r.pos(c.Instr), "precision -1: the shortest text that parses back to the same float",
 					"floats are sent with a fixed number of digits: a float64 that needs 16–17 significant digits (0.30000000000000004, math.Pi) arrives rounded, MaxFloat64 rounds up past the range and the server's bind fails")
+				// the bit size states which float the text must read back to: 64 is exact for float64 and float32 values alike,
+				// 32 rounds a float64 first; anything else must come from the value's own type
+				bits := c.Common.Args[len(c.Common.Args)-1]
+				bk, isBC := constInt(asConst(bits))
+				fromType := dependsOn(bits, func(v ssa.Value) bool {
+					cc, ok := v.(*ssa.Call)
+					return ok && (strings.HasSuffix(calleeName(&cc.Call), "reflect.Type).Bits") || strings.HasSuffix(calleeName(&cc.Call), "reflect.Type).Size"))
+				}) != nil
+				src := c.Common.Args[0]
+				if strings.HasSuffix(calleeName(c.Common), "AppendFloat") {
+					src = c.Common.Args[1]
+				}
+				narrow := false // the value is a widened float32
+				if cv, ok := src.(*ssa.Convert); ok {
+					if b, ok := cv.X.Type().Underlying().(*types.Basic); ok && b.Kind() == types.Float32 {
+						narrow = true
+					}
+				}
+				r.check((isBC && (bk == 64 || narrow)) || (!isBC && fromType), fmt.Sprintf("%s:FormatFloat#%d:bit-size-covers-the-value", short(f.String()), n), r.pos(c.Instr), "the bit size is 64 (exact for every float the encoder sees) or taken from the value's type",
+					"a float64 is formatted with bit size 32: it is rounded to float32 first (math.Pi arrives as 3.1415927, MaxFloat64 as +Inf) and no longer binds to an equal value")
 			}
 		})
 		r.atLeast("float formatting sites in the client", n, 1)
